@@ -7,12 +7,16 @@ from harness.props import c05
 
 ID = 'C06'
 MODULE = 'Gpv.Props.C06'
-THEOREMS = core.theorems('C06')
+MODULES = ['Gpv.Props.C06', 'Gpv.Props.C06Float']
+THEOREMS = core.theorems('C06', 'C06Float')
 RULE = ('random sequence split into 1..6 chunks (empty chunks included), one accumulator per chunk, random binary merge order, '
         'receiver and merged-in accumulator read before and after every merge; model in exact rationals vs implementation floats '
         '(rtol 1e-9); oracle = exact batch statistic of the union + "other unchanged" + counts add; plus every non-mergeable class '
         'merged with its own kind. non-trivial: >= 2 non-empty chunks of unequal size, or an empty operand; distinct by (kind, chunks, order).')
-PARTIAL = ['floating-point bounds of merges: same float_probe idea as C05, tested not proved']
+PARTIAL = ['floating-point bound of the pooled MEAN merge: proved in the standard rounding model (C06Float.mean_merge_float_error: one merge costs at most '
+           '((1+u)^3 - 1)*max(|a|,|b|), attained; merged_streams_float_error: 6*(L+1)*u*M; tree_float_error(_lin): a merge tree of depth d over float runs of '
+           'length <= L is within 6*(L+d)*u*M of the exact mean — it grows with the depth, not with the number of chunks). The bounds for the Variance / '
+           'Covariance merges are not proved: float_probe tests them against the exact rational statistic']
 ASSUMPTIONS = ['numpy element-wise arithmetic and broadcasting']
 
 REFUSERS = ['RunningMean', 'RunningVariance', 'RunningCovariance', 'ReservoirSampling', 'CDFEstimator',
